@@ -16,6 +16,7 @@ import operator
 import common
 from common import enc, dec, err_kind
 from props import c07_hist as H
+from props import c07_zero as Z0
 
 ID = "C07"
 RULE = ("random expression trees (depth<=3 quick / <=4 thorough) over Laurent polynomials with support in [-4,6] and "
@@ -29,8 +30,25 @@ RULE = ("random expression trees (depth<=3 quick / <=4 thorough) over Laurent po
         "same op on each), lag (lagrange.func / lagrange.poly / resample on numerically equal abscissae or points of "
         "different types and in 8 container kinds), hashed, src (the caller's own list / dict / OrderedDict given to "
         "Poly(...) and changed afterwards), walk, long; non-trivial = the impl returned a non-empty polynomial, a law "
-        "vector, a comparison, interpolated values, or a history with a value-returning step; distinct = distinct JSON case")
+        "vector, a comparison, interpolated values, or a history with a value-returning step; distinct = distinct JSON case; "
+        "ZERO / SPELLING histories (entries zhist, pynum; props/c07_zero.py): numbers tagged with their Python kind (bool / int / "
+        "Fraction / dyadic float / complex), zeros default / 0 / 0.0 / Fraction(0) / False / 0j given by keyword, positionally, "
+        "omitted or as None, the copy constructor, copy(zero=), the zero setter, scalar arithmetic on either side, + - * ** / "
+        "of mixed-zero operands, Poly / bool / float / int exponents, composition, diff / integrate, item assignment with "
+        "float / bool powers, hash, ==, != — shapes cross (one polynomial created in 4..8 ways), ring (both sides of ring "
+        "identities on differently spelled operands), walk, malformed (unhashable zeros [] / {}), weird-zero (a zero equal to a "
+        "coefficient), fixed (every spelling x every call shape); at the end every pair of variables is crossed with ==, != "
+        "(both orders), hash, set / dict membership; pynum: +, -, *, /, **, ==, hash of two tagged numbers against CPython")
 TRUSTED = [
+    "zero / spelling model ALV/Model/C07Zero.lean (hand-written, modelled not verified): Python's numeric tower as PyNum "
+    "(result kinds of + - * / **, == as numerical equality, CPython's hash of int / Fraction / float / complex with modulus "
+    "2^61-1) — tied to the real interpreter by entry pynum (kind, exact value and hash of every result); a float is a rational "
+    "in the model, flagged inexact when IEEE double arithmetic would round (then values are compared within 1e-9 and the later "
+    "steps on that object only by the kind of answer); that a correctly rounded IEEE operation returns the exact result when "
+    "it is representable is trusted",
+    "hash(Poly): the model gives (sorted (power, hash(coefficient)) pairs, hash(zero)); that CPython's hash of a tuple / "
+    "frozenset is a function of the hashes of the members is trusted; the tie demands equal hashes whenever the model's keys are "
+    "equal and, model free, whenever p == q",
     "hand-written Lean model ALV/Model/C07.lean of lazy_poly.Poly / lagrange (modelled, not verified: OrderedDict as "
     "association list, Python's Fraction arithmetic as a field, int*Fraction / Fraction**int as ofIntA / powInt)",
     "float / complex powers, Stream coefficients, __str__, roots (numpy) are outside the model",
@@ -58,6 +76,9 @@ TRUSTED = [
     "earlier cases of the run is reported as a broken correspondence, not as the failing input",
 ]
 ASSUMPTIONS = [
+    "zero / spelling histories: powers are ints (given as int, k.0 or bool); Stream coefficients, Stream / filter arguments of "
+    "__call__, non-integer exponents, roots (numpy), __str__ are outside; zeros that are not numerically zero (zero=1) and the "
+    "unhashable zeros [] / {} are inside the model (compaction is against the instance's own zero with ==)",
     "exact regime only: Fraction coefficients / evaluation points and zero=Fraction(0) (the default float zero 0. "
     "turns exact inputs into floats; lagrange.poly uses the module-level x whose zero is 0. but keeps Fraction coefficients)",
     "p**n for n<0 and a Poly with more than one term returns p itself in the code (list repetition by a negative "
@@ -77,7 +98,9 @@ MANIFEST = {
     "technique": "Lean 4 proof (association-list model interpreted into Mathlib's Laurent polynomial ring K[T;T⁻¹]; heap "
                  "model of mutable instances with invariant / freshness / frame theorems over all histories) + "
                  "differential tie on expression trees in the exact Fraction regime and on histories of shared, mutated "
-                 "and re-used objects with arguments of every numeric type",
+                 "and re-used objects with arguments of every numeric type; model of the zero attribute and of Python's numeric "
+                 "kinds (==, hash, result kinds) with `p == q -> hash p = hash q` proved over all histories and spellings, tied "
+                 "value-and-kind exact to the real class and to CPython's numbers",
 }
 
 Z = F(0)
@@ -294,7 +317,7 @@ def generate(rng, tier, scale=1):
         cases.extend(_big_cases(rng, tier))
     # histories (shared, mutated and re-used objects; numerically equal arguments of different types) come first: the
     # first H.ISO_ALWAYS of them run in a fresh process each, before this process has touched the library
-    return H.gen_hist(rng, tier, scale) + cases
+    return H.gen_hist(rng, tier, scale) + cases + Z0.generate(rng, tier, scale)
 
 
 def _big_cases(rng, tier):
@@ -580,13 +603,20 @@ def _laws(c):
     return out
 
 
+ZENTRIES = ("zhist", "pynum")
+
+
 def impl(c):
     if c["entry"] == "hist":
         return H.impl(c)
+    if c["entry"] in ZENTRIES:
+        return Z0.impl(c)
     return _impl_plain(c)
 
 
 def request(c):
+    if c["entry"] in ZENTRIES:
+        return Z0.request(c)
     return H.request(c) if c["entry"] == "hist" else c
 
 
@@ -685,6 +715,8 @@ def _prune(terms, tol):
 def compare(c, io, drv):
     if c["entry"] == "hist":
         return H.compare(c, io, drv)
+    if c["entry"] in ZENTRIES:
+        return Z0.compare(c, io, drv)
     out = _compare_plain(c, io, drv)
     if out and not io.get("isolated"):
         # a witness has to fail by itself: once more in a fresh process that has run nothing else
@@ -810,6 +842,8 @@ def _compare_plain(c, io, drv):
 def nontrivial(c, io):
     if c["entry"] == "hist":
         return H.nontrivial(c, io)
+    if c["entry"] in ZENTRIES:
+        return Z0.nontrivial(c, io)
     if "err" in io:
         return False
     e = c["entry"]
@@ -841,6 +875,8 @@ def tally(eng, c, io):
         eng.count("big_case", (c["expr"][0] if e == "expr" else "lagrange, %d points" % len(c["pairs"])))
     if e == "hist":
         return H.tally(eng, c, io)
+    if e in ZENTRIES:
+        return Z0.tally(eng, c, io)
     eng.count("regime", "float (impl-injected, tol 1e-9)" if io.get("float") else "exact")
     if e == "expr":
         t = c["expr"]
@@ -928,6 +964,10 @@ def _shrink_tree(t):
 
 def shrink(c):
     e = c["entry"]
+    if e in ZENTRIES:
+        for c2 in Z0.shrink(c):
+            yield c2
+        return
     if e == "hist":
         n = 0
         for c2 in H.shrink(c):
@@ -1006,6 +1046,8 @@ def classify(c, io, drv):
     e = c["entry"]
     if e == "hist":
         return H.classify(c, io, drv)
+    if e in ZENTRIES:
+        return Z0.classify(c, io, drv)
     if io.get("only_after_earlier_cases"):
         return e + ":only-after-earlier-cases"
     if e == "lagrange":
@@ -1026,4 +1068,4 @@ def classify(c, io, drv):
     return "unclassified"
 
 
-H._IMPL_OTHER.update({"expr": _impl_plain, "laws": _impl_plain, "eq": _impl_plain, "lagrange": _impl_plain})
+H._IMPL_OTHER.update({"zhist": Z0.impl, "pynum": Z0.impl, "expr": _impl_plain, "laws": _impl_plain, "eq": _impl_plain, "lagrange": _impl_plain})
